@@ -146,7 +146,7 @@ def run(ctx):
     # ---- R2 provide ------------------------------------------------------------------------
     fn = pr.provide_handler
     info = param(fn, INFO_TY)
-    assets_i = common.param_index_of_type(fn, r"^\[haloswap::asset::Asset; 2\]$")
+    assets_i = common.param_index_of_type(fn, r"^\[%s; 2\]$" % ctx.N.rx("Asset"))
     if assets_i is None:
         r2.fail("C09.R2:anchor", fn.path, fn.span, "anchor-missing: provide handler has no [Asset; 2] parameter")
     else:
@@ -213,7 +213,7 @@ def run(ctx):
     # ---- R3 swap ---------------------------------------------------------------------------------
     fn = pr.swap_handler
     info = param(fn, INFO_TY)
-    offer_i = common.param_index_of_type(fn, r"^haloswap::asset::Asset$")
+    offer_i = common.param_index_of_type(fn, "^%s$" % ctx.N.rx("Asset"))
     calls = pr.calls_to(fn, chk)
     if offer_i is None:
         r3.fail("C09.R3:anchor", fn.path, fn.span, "anchor-missing: swap handler has no unique Asset parameter")
